@@ -93,11 +93,20 @@ def observe(base, pay, wcfg, level, long_lived=()):
     return files, chunks
 
 
-def run_history(workdir, cfg, ops, salt=0, level=9):
+def run_history(workdir, cfg, ops, salt=0, level=9, via="ctor"):
     from neuroglancer_scripts import file_accessor as fa
     base = tempfile.mkdtemp(prefix="fs_", dir=workdir)
     pay = payloads(salt)
     acc = fa.FileAccessor(base, flat=cfg["flat"], gzip=cfg["gzip"], compresslevel=level)
+    if via != "ctor":
+        # the accessor the command-line tools get: URL spelling + options dictionary
+        from neuroglancer_scripts import accessor as acc_mod
+        url = {"path": base, "file": "file://" + base, "precomputed": "precomputed://" + base,
+               "precomputed-file": "precomputed://file://" + base}[via]
+        opts = {"flat": cfg["flat"], "gzip": cfg["gzip"], "compresslevel": level}
+        if via == "path" and not cfg["flat"] and cfg["gzip"] and level == 9:
+            opts = {}                      # the documented defaults: deep layout, gzip, level 9
+        acc = acc_mod.get_accessor_for_url(url, opts)
     reader = fa.FileAccessor(base, flat=cfg["flat"], gzip=cfg["gzip"], compresslevel=level)
     events = []
     try:
@@ -123,7 +132,7 @@ def run_history(workdir, cfg, ops, salt=0, level=9):
             events.append(e)
     finally:
         shutil.rmtree(base, ignore_errors=True)
-    return {"kind": "hist", "cfg": cfg, "level": level, "events": events,
+    return {"kind": "hist", "cfg": cfg, "level": level, "via": via, "events": events,
             "segs": [], "abs": False, "op": "", "res": "", "touched": False}
 
 
